@@ -439,7 +439,8 @@ func (fr *Frame) applyContract(ct *Contract, callee *ssa.Function, sig *types.Si
 		}
 		var t *Term
 		if err := safeEval(func() { t = env.Bool(rq.Expr) }); err != nil {
-			panic(stopExec{fmt.Sprintf("contract %s: requires %q: %v", cname, rq.Src, err)})
+			x.noteStale(fmt.Sprintf("contract %s (at a call in %s): requires %q: %v", cname, shortFuncName(fr.fn), rq.Src, err))
+			continue
 		}
 		if x.mode.Functional || ct.Extern && (x.mode.Effects || x.mode.Sweep) {
 			lbl := rq.Label
@@ -596,7 +597,8 @@ func (fr *Frame) applyContract(ct *Contract, callee *ssa.Function, sig *types.Si
 		}
 		var t *Term
 		if err := safeEval(func() { t = post.Bool(en.Expr) }); err != nil {
-			panic(stopExec{fmt.Sprintf("contract %s: ensures %q: %v", cname, en.Src, err)})
+			x.noteStale(fmt.Sprintf("contract %s (at a call in %s): ensures %q: %v", cname, shortFuncName(fr.fn), en.Src, err))
+			continue
 		}
 		x.assume(pc, t, "callee postcondition "+cname+": "+en.Src)
 	}
@@ -1857,7 +1859,55 @@ func (fr *Frame) applyModSet(ms *ModSet, st *State, args []Value) {
 	}
 }
 
+// atSetGhostsIn: the ghosts assigned by "at <callee>: set ghost.g = e" clauses of the root
+// contract whose call site lies inside the loop (they belong to the loop's frame).
+func (fr *Frame) atSetGhostsIn(lp *Loop) []string {
+	if !fr.isRoot || fr.contract == nil {
+		return nil
+	}
+	var out []string
+	for _, cl := range fr.contract.AtCalls {
+		if cl.Handle == "" || !fr.x.active(cl) {
+			continue
+		}
+		hit := false
+		for b := range lp.Blocks {
+			for _, in := range b.Instrs {
+				ci, ok := in.(ssa.CallInstruction)
+				if !ok {
+					continue
+				}
+				c := ci.Common()
+				var names []string
+				if sc := c.StaticCallee(); sc != nil {
+					names = append(names, shortFuncName(sc), externName(sc))
+				}
+				if c.IsInvoke() {
+					names = append(names, "("+types.TypeString(types.Unalias(c.Value.Type()), nil)+")."+c.Method.Name())
+					names = append(names, "("+shortTypeKey(types.Unalias(c.Value.Type()))+")."+c.Method.Name())
+				}
+				if contains(names, cl.Names[0]) {
+					hit = true
+				}
+			}
+		}
+		if hit {
+			out = append(out, "ghost:"+cl.Handle)
+		}
+	}
+	sort.Strings(out)
+	return out
+}
+
 func (fr *Frame) loopModSet(lp *Loop, st *State) *modSet {
+	out := fr.loopModSet0(lp, st)
+	for _, g := range fr.atSetGhostsIn(lp) {
+		out.names[g] = true
+	}
+	return out
+}
+
+func (fr *Frame) loopModSet0(lp *Loop, st *State) *modSet {
 	x := fr.x
 	out := &modSet{names: map[string]bool{}, cells: map[int]bool{}}
 	if fr.contract != nil {
@@ -2203,17 +2253,10 @@ func (fr *Frame) atCallAsserts(c *ssa.CallCommon, callee *ssa.Function, args []V
 		}
 		if cl.Handle != "" {
 			// ghost assignment: a scalar ghost of this function's contract file takes the value
-			// of the expression here (not inside loops: the loop frame would not know about it)
+			// of the expression here (inside a loop the ghost is part of the loop's frame, see loopModSet)
 			g, ok := x.W.Specs.Ghosts[cl.Handle]
 			if !ok {
 				panic(stopExec{fmt.Sprintf("at %s: set: unknown ghost %q", cl.Names[0], cl.Handle)})
-			}
-			if blk := fr.curBlock; blk != nil {
-				for _, lp := range fr.li.Loops {
-					if lp.Blocks[blk] {
-						panic(stopExec{fmt.Sprintf("at %s: set ghost.%s inside a loop is not supported", cl.Names[0], cl.Handle)})
-					}
-				}
 			}
 			var v *Term
 			if err := safeEval(func() { v = env.term(env.eval(cl.Expr)) }); err != nil {
